@@ -38,19 +38,48 @@ ASSUMPTIONS = [
 ]
 
 
+FILE_SPECS = [{"src": "fixture", "name": n} for n in ("issue109/filter_lfo.sunvox", "issue54/test1.sunvox", "module-multiselect.sunvox", "single-fm.sunvox", "supertracks.sunvox", "issue41/sample.sunvox")]
+
+
 class W:
-    def __init__(self, nproj):
-        self.projects = [Project() for _ in range(nproj)]
-        self.slots = [[("out", i)] for i in range(nproj)]  # model: per project list of object keys / None
+    def __init__(self, nproj, from_files=()):
+        from .. import files
+
+        self.projects = []
+        for i in range(nproj):
+            sel = from_files[i] if i < len(from_files) else None
+            if sel is None:
+                self.projects.append(Project())
+            else:
+                ctx = Ctx(())
+                with active(ctx):
+                    self.projects.append(read_sunvox_file(ctx.new_stream(files.materialize(FILE_SPECS[sel % len(FILE_SPECS)]), "arg")))
+                env.LOG.take()
+        self.slots = [[] for _ in range(nproj)]  # model: per project list of object keys / None
         self.mods = {}  # key -> module object
         self.pats = {}  # key -> pattern object
         self.mowner = {}  # key -> project index or None
         self.powner = {}
         self.pslots = [[] for _ in range(nproj)]
         self.n = 0
+        self.wrappers = []  # MetaModules that adopted a project (kept alive)
         for i, p in enumerate(self.projects):
-            self.mods[("out", i)] = p.output
-            self.mowner[("out", i)] = i
+            for j, m in enumerate(p.modules):
+                if m is None:
+                    self.slots[i].append(None)
+                    continue
+                key = ("out", i) if j == 0 else self.key()
+                self.mods[key] = m
+                self.mowner[key] = i
+                self.slots[i].append(key)
+            for x in p.patterns:
+                if x is None:
+                    self.pslots[i].append(None)
+                else:
+                    key = self.key()
+                    self.pats[key] = x
+                    self.powner[key] = i
+                    self.pslots[i].append(key)
 
     def key(self):
         self.n += 1
@@ -154,8 +183,10 @@ def execute(case):
     for i, op in enumerate(case["ops"]):
         k = op["k"]
         if k == "setup":
-            w = W(2 + op.get("n", 0) % 2)
-            log.append((i, "setup", len(w.projects)))
+            w = W(2 + op.get("n", 0) % 2, op.get("files", ()))
+            if any(None in s_ for s_ in w.slots):
+                probes["loaded_project_with_gap"] = probes.get("loaded_project_with_gap", 0) + 1
+            log.append((i, "setup", len(w.projects), list(op.get("files", ()))))
             continue
         if w is None:
             w = W(2)
@@ -309,7 +340,7 @@ def execute(case):
                 if mode == 0:  # read for an arbitrary module number
                     n = len(p.modules)
                     gaps = [j + 1 for j, m in enumerate(p.modules) if m is None]
-                    cands = [0, 1, n, n + 1, n + 5, 1 + op.get("num", 0) % (n + 1)]
+                    cands = [0, 1, n, n + 1, n + 5, 1 + op.get("num", 0) % (n + 1), 0x100, 0x101, 0x102, 0x100 + n, 0xFFFF, 0x8001, 0x100 * (1 + op.get("num", 0) % 200) + 1 + op.get("num", 0) % (n + 1)]
                     if gaps:
                         cands += [gaps[0], gaps[-1], gaps[op.get("num", 0) % len(gaps)]]
                     num = cands[op.get("sel", 0) % len(cands)]
@@ -341,6 +372,22 @@ def execute(case):
                         except rv.errors.ModuleOwnershipError:
                             if note.module != old:
                                 violations.append(_v("refusal_changes_nothing", after="note_mod_set_free", detail={"op": i}))
+            elif k == "wrap":
+                # the project becomes the embedded project of a MetaModule (with some user
+                # controller mappings); it is still a project and the same rules apply to it
+                from rv.modules.metamodule import MetaModule
+
+                if getattr(p, "metamodule", None) is None:
+                    mm = MetaModule(project=p)
+                    w.wrappers.append(mm)
+                    probes["project_wrapped_in_metamodule"] = probes.get("project_wrapped_in_metamodule", 0) + 1
+                mm = p.metamodule
+                v = op.get("v", 0)
+                for j in range(1 + v % 4):
+                    mp = mm.mappings.values[(v >> 3) % 8 + j]
+                    mp.module = (v >> (8 + 5 * j)) % (len(p.modules) + 2)
+                    mp.controller = (v >> (30 + 3 * j)) % 6
+                after = "wrap"
             elif k == "save_load":
                 interesting = True
                 types_before = [type(m).__name__ if m is not None else None for m in p.modules]
@@ -438,8 +485,8 @@ def execute(case):
 
 def generate(seed, i, tier="quick"):
     r = seeds.rng(seed, "c14hist", i)
-    ops = [{"k": "setup", "n": r.randrange(2)}]
-    kinds = ["new", "new", "new_module", "new_module", "attach", "attach", "attach", "iadd", "iadd_list", "attach_pattern", "attach_pattern", "note_mod", "note_mod", "save_load", "newpat"]
+    ops = [{"k": "setup", "n": r.randrange(2), "files": [r.choice([None, None, r.randrange(6)]) for _ in range(3)]}]
+    kinds = ["wrap", "new", "new", "new_module", "new_module", "attach", "attach", "attach", "iadd", "iadd_list", "attach_pattern", "attach_pattern", "note_mod", "note_mod", "save_load", "newpat"]
     for _ in range(r.randint(5, 40)):
         k = r.choice(kinds)
         op = {"k": k, "p": r.randrange(3)}
@@ -456,9 +503,11 @@ def generate(seed, i, tier="quick"):
         elif k == "newpat":
             op.update(l=r.randrange(4), t=r.randrange(3))
         elif k == "note_mod":
-            op.update(pat=r.randrange(100), l=r.randrange(8), t=r.randrange(8), mode=r.choice([0, 0, 0, 1, 2]), sel=r.randrange(18), num=r.randrange(1000), m=r.randrange(1000))
+            op.update(pat=r.randrange(100), l=r.randrange(8), t=r.randrange(8), mode=r.choice([0, 0, 0, 1, 2]), sel=r.randrange(52), num=r.randrange(1000), m=r.randrange(1000))
         elif k == "save_load":
             op["gaps"] = r.getrandbits(30) if r.random() < 0.6 else 0
+        elif k == "wrap":
+            op["v"] = r.getrandbits(50)
         ops.append(op)
     return {"property": PROPERTY, "world": "owner", "ops": ops}
 
